@@ -75,9 +75,9 @@ Theorem each_package_once e u g dc tau ord st names w :
   (forall p, In p (pkgs_in_order g ord) <-> exists n, In n ord /\ is_inst g n = true /\ node_pkg g n = Some p).
 Proof.
   intros EI TO R Cons D.
-  pose proof (wiring_correct _ _ _ _ _ _ _ _ EI TO R Cons) as W. rewrite D in W. cbn [option_map] in W. injection W as W.
+  pose proof (wiring_correct _ _ _ _ _ _ _ _ EI TO R Cons) as W. rewrite D in W. cbn [option_map] in W. injection W as _ _ Wc _.
   repeat split.
-  - change (w_comps w) with (w_comps (erase_defs (def_names e g) w)). now rewrite W.
+  - exact Wc.
   - apply nodup_nat_NoDup.
   - unfold pkgs_in_order. rewrite nodup_nat_In, in_flat_map. intros [n [I H]]. apply filter_In in I as [I Hi].
     exists n. repeat split; auto. destruct (node_pkg g n); cbn in H; [destruct H as [->|[]]; auto | destruct H].
